@@ -36,8 +36,69 @@ let field_sweep spec p =
       done
     done) fop_table
 
+(* ---- dispatch: closed expressions over literals ----
+   line: `<p hex> <tokens>` with  E := n HEX | i OP E E | p OP E  (prefix form);
+   output: the tree with the constant attached to every node, as harness/src/bin/field.rs prints it *)
+let infix_table = [ "mul", Ir.IMul; "div", Ir.IDiv; "add", Ir.IAdd; "sub", Ir.ISub; "pow", Ir.IPow;
+  "idiv", Ir.IIntDiv; "mod", Ir.IMod; "shl", Ir.IShl; "shr", Ir.IShr; "le", Ir.ILe; "ge", Ir.IGe;
+  "lt", Ir.ILt; "gt", Ir.IGt; "eq", Ir.IEq; "neq", Ir.INeq; "or", Ir.IOr; "and", Ir.IAnd;
+  "bor", Ir.IBor; "band", Ir.IBand; "bxor", Ir.IBxor ]
+let prefix_table = [ "not", Ir.PNot; "neg", Ir.PNeg; "compl", Ir.PCompl ]
+let name_of tbl o = fst (Stdlib.List.find (fun (_, x) -> x = o) tbl)
+
+let rec parse_lexpr = function
+  | "n" :: h :: rest -> (FieldDispatch.LNum (z_of_hex h), rest)
+  | "i" :: op :: rest ->
+    let (l, rest) = parse_lexpr rest in
+    let (r, rest) = parse_lexpr rest in
+    (FieldDispatch.LInfix (Stdlib.List.assoc op infix_table, l, r), rest)
+  | "p" :: op :: rest ->
+    let (x, rest) = parse_lexpr rest in
+    (FieldDispatch.LPrefix (Stdlib.List.assoc op prefix_table, x), rest)
+  | _ -> failwith "lexpr"
+
+let show_vred = function
+  | None -> "-"
+  | Some (Ir.VBool b) -> if b then "(b 1)" else "(b 0)"
+  | Some (Ir.VField z) -> "(f " ^ hex_of_z z ^ ")"
+
+let rec show_expr e =
+  let v = show_vred (Ir.expr_val e) in
+  match e with
+  | Ir.ENum (z, _) -> Printf.sprintf "(num %s %s)" (hex_of_z z) v
+  | Ir.EInfix (op, l, r, _) -> Printf.sprintf "(infix %s %s %s %s)" (name_of infix_table op) (show_expr l) (show_expr r) v
+  | Ir.EPrefix (op, x, _) -> Printf.sprintf "(prefix %s %s %s)" (name_of prefix_table op) (show_expr x) v
+  | _ -> Printf.sprintf "(other %s)" v
+
+let fault = function
+  | Err EDivisionByZero -> "err div0"
+  | Err EBitOverflow -> "err shift"
+  | Err (EOther _) -> "err other"
+  | Panic _ -> "panic"
+  | OutOfFuel -> "outoffuel"
+  | Ok _ -> "ok"
+
+(* mode: 0 = pass-loop mirror (annotated tree), 1 = bottom-up dispatch (root constant), 2 = documented value *)
+let dispatch_line mode line =
+  match Stdlib.String.split_on_char ' ' (Stdlib.String.trim line) with
+  | p :: toks ->
+    let pz = z_of_hex p in
+    let r = match parse_lexpr toks with
+      | exception _ -> "bad-line"
+      | (e, []) ->
+        (match mode with
+         | 0 -> (match FieldDispatch.propagate_lit pz e with Ok e' -> show_expr e' | o -> fault o)
+         | 1 -> (match FieldDispatch.lit_dispatch pz e with Ok v -> show_vred v | o -> fault o)
+         | _ -> (match DispatchSpec.doc_eval pz e with Ok v -> "ok " ^ hex_of_z v | o -> fault o))
+      | _ -> "bad-line" in
+    Printf.sprintf "%s = %s" p r
+  | _ -> "bad-line"
+
 let () =
   match Array.to_list Sys.argv with
+  | _ :: "dispatch-loop" :: _ -> each_line (dispatch_line 0)
+  | _ :: "dispatch" :: _ -> each_line (dispatch_line 1)
+  | _ :: "dispatch-doc" :: _ -> each_line (dispatch_line 2)
   | _ :: "mirror" :: _ -> each_line (field_line false)
   | _ :: "spec" :: _ -> each_line (field_line true)
   | _ :: "mirror-sweep" :: ps -> Stdlib.List.iter (fun p -> field_sweep false (int_of_string p)) ps
